@@ -375,10 +375,12 @@ class ArgumentParser:
         )
 
         # Suppress warnings for common arguments we don't care about.
-        parser.add_argument("-O", dest=None)
+        # -O, -g and -c may stand alone or be the prefix of a longer option
+        # (e.g. -O2, -g3, -ggdb, -ccbin), so their value is optional.
+        parser.add_argument("-O", nargs="?", dest=None)
         parser.add_argument("-o", dest=None)
-        parser.add_argument("-g", action="store_const", dest=None)
-        parser.add_argument("-c", action="store_const", dest=None)
+        parser.add_argument("-g", nargs="?", dest=None)
+        parser.add_argument("-c", nargs="?", dest=None)
         parser.add_argument("file", nargs="*")
 
         # Add additional options for this specific compiler.
